@@ -1413,6 +1413,12 @@ class SuccessionDiagram:
         if node["expanded"]:
             return False
 
+        # Attractor data computed while the node had no successors
+        # is no longer valid once the skip edges are added.
+        node["attractor_seeds"] = None
+        node["attractor_candidates"] = None
+        node["attractor_sets"] = None
+
         pn = self.node_percolated_petri_net(node_id, compute=True)
         minimal_traps = trappist(network=pn, problem="min")
         minimal_traps = [(node["space"] | x) for x in minimal_traps]
@@ -1471,6 +1477,12 @@ class SuccessionDiagram:
 
             if node["expanded"]:
                 continue
+
+            # Attractor data computed while the node had no successors
+            # is no longer valid once the skip edges are added.
+            node["attractor_seeds"] = None
+            node["attractor_candidates"] = None
+            node["attractor_sets"] = None
 
             skip_edges = 0
             for m_id, m_trap in trap_with_id:
